@@ -76,6 +76,17 @@ void rv(string hex) {              // restore arbitrary text
   e = catch(w = restore_variable(S(hex)));
   rec("RV " + (e ? "err" : "ok " + typeof(w)));
 }
+// restore a text nested n levels deep (built here: it would not fit on a command line).  kind: a array, m mapping, c class;
+// closed = 0 leaves it unterminated.  save_variable() never writes more than 25 levels.
+void rvdeep(string kind, string spec) {     // spec = "<n>:<closed>"
+  mixed w, e; string s, op, cl, closed; int n;
+  n = to_int(explode(spec, ":")[0]); closed = explode(spec, ":")[1];
+  op = kind == "a" ? "({" : (kind == "m" ? "([1:" : "(/");
+  cl = kind == "a" ? ",})" : (kind == "m" ? ",])" : ",/)");
+  s = repeat_string(op, n) + "7" + (to_int(closed) ? repeat_string(cl, n) : "");
+  e = catch(w = restore_variable(s));
+  rec("RV " + (e ? "err" : "ok " + typeof(w)));
+}
 void rvraw(string text) {         // restore text given literally; echoes what came back
   mixed w, e; string s2;
   e = catch(w = restore_variable(text));
